@@ -1525,6 +1525,27 @@ def unroll_literal_iterations(tree: ast.Module) -> int:
     return n
 
 
+def fuse_identity_generators(tree: ast.Module) -> int:
+    """`for s in (x for x in IT if C(x))` inside a comprehension is `for s in IT if C(s)`: a filter written as a generator of its own (what
+    `filter(pred, IT)` becomes) and the same filter written as a condition of the consuming comprehension are one form."""
+    n = 0
+    for comp in [c for c in ast.walk(tree) if isinstance(c, _COMP)]:
+        for g in comp.generators:
+            inner = g.iter
+            if isinstance(inner, (ast.GeneratorExp, ast.ListComp)) and len(inner.generators) == 1 and not inner.generators[0].is_async and not g.is_async \
+                    and isinstance(inner.elt, ast.Name) and isinstance(inner.generators[0].target, ast.Name) and inner.elt.id == inner.generators[0].target.id \
+                    and isinstance(g.target, ast.Name):
+                ig = inner.generators[0]
+                sub = _Subst({ig.target.id: ast.Name(id=g.target.id, ctx=ast.Load())})
+                if any(_binds(c_, ig.target.id) or _binds(c_, g.target.id) for c_ in ig.ifs):
+                    continue
+                g.iter = ig.iter
+                g.ifs = [sub.visit(copy.deepcopy(c_)) for c_ in ig.ifs] + g.ifs
+                n += 1
+    ast.fix_missing_locations(tree)
+    return n
+
+
 def getters_to_lambdas(tree: ast.Module) -> int:
     """`operator.itemgetter(k)` / `attrgetter("a")` written out as the lambda they stand for (`lambda g: g[k]`, `lambda g: g.a`), so that a key
     function has one spelling."""
